@@ -61,6 +61,20 @@ CLAIMED["C07"] = dict(
          "all 1,112,064 scalars through enc/dec and UTF-16 both ways, strings x capacities, plain exact-size and library sources.",
     ref="6 C07")
 
+CLAIMED["C01"] = dict(
+    technique="Lean 4 invariant proofs over a node/ledger model of the arena (any growth function, max_size, alignment) + script correspondence with heap traffic",
+    text="Theorems for every growth function, max_size, alignment > 0 and request size: the invariant (pos <= cap = bytes "
+         "obtained; live blocks aligned, in allocation order, pairwise disjoint, below pos) holds initially and is preserved by "
+         "alloc, realloc (last block in place or moved, non-last moved) and rewind; alloc returns an aligned block backed by "
+         ">= n bytes inside the node's obtained memory with every other live block of the node entirely below it and other "
+         "nodes untouched; rewind to a live block pops exactly the newer nodes and keeps exactly the older entries; realloc "
+         "copies exactly min(old,new) bytes or nothing when the block stays.",
+    note="Modelled, not verified: malloc (fresh disjoint 16-aligned regions), the double product growth*capacity (an arbitrary "
+         "function in the theorems, k*cap/8 in the correspondence), block CONTENTS (the theorems state which bytes are copied "
+         "and that ranges are disjoint; contents are observed by the correspondence run with pattern-filled blocks under ASan). "
+         "Alignment 32/64 is a KNOWN FINDING (only 16-byte aligned). Shared arena = arena + lock (lock: C14).",
+    ref="6 C01")
+
 PENDING = {}
 
 def main():
